@@ -43,6 +43,15 @@ class SetupRejected(Exception):
         self.ev, self.res = ev, res
 
 
+class SetupViolated(Exception):
+    """While a world was being set up the library did something the harness
+    relies on not to happen (e.g. an undeclared symbol resolved)."""
+
+    def __init__(self, kind, msg):
+        Exception.__init__(self, msg)
+        self.kind = kind
+
+
 class TypeM:
     def __init__(self, name, dim, ref, quantum, base):
         self.name, self.dim, self.ref, self.quantum, self.base = \
